@@ -253,6 +253,102 @@ func upperFirst(s string) string {
 	return strings.ToUpper(s[:1]) + s[1:]
 }
 
+// caseVariant returns the same word in another letter case.
+func caseVariant(rng *rand.Rand, s string) string {
+	switch rng.Intn(3) {
+	case 0:
+		return upperFirst(s)
+	case 1:
+		return strings.ToUpper(s)
+	default:
+		if len(s) < 2 {
+			return strings.ToUpper(s)
+		}
+		return s[:len(s)-1] + strings.ToUpper(s[len(s)-1:])
+	}
+}
+
+// variantizeStores rewrites label values (and a few keys) into letter-case variants of the same word
+// (z1 / Z1 / ZONE), into values that are prefixes of each other (z1 / z10) and, rarely, into the empty
+// string. pd looks labels up by key ignoring case, treats an empty value as "not set", compares
+// location values ignoring case and constraint values exactly; the model mirrors that.
+func variantizeStores(rng *rand.Rand, stores []StoreSpec) {
+	for si := range stores {
+		ls := stores[si].Labels
+		for i := range ls {
+			switch v := rng.Intn(100); {
+			case v < 30:
+				ls[i].V = caseVariant(rng, ls[i].V)
+			case v < 38:
+				ls[i].V += "0"
+			case v < 41:
+				ls[i].V = ""
+			}
+			if rng.Intn(10) == 0 {
+				ls[i].K = caseVariant(rng, ls[i].K)
+			}
+		}
+	}
+}
+
+func variantizeRules(rng *rand.Rand, rules []RuleSpec) {
+	for ri := range rules {
+		r := &rules[ri]
+		for i := range r.Loc {
+			if rng.Intn(7) == 0 {
+				r.Loc[i] = caseVariant(rng, r.Loc[i])
+			}
+		}
+		for i := range r.Cons {
+			if rng.Intn(8) == 0 {
+				r.Cons[i].Key = caseVariant(rng, r.Cons[i].Key)
+			}
+			for j := range r.Cons[i].Values {
+				switch v := rng.Intn(100); {
+				case v < 25:
+					r.Cons[i].Values[j] = caseVariant(rng, r.Cons[i].Values[j])
+				case v < 30:
+					r.Cons[i].Values[j] += "0"
+				}
+			}
+		}
+	}
+}
+
+// caseVariantGrid: three voters on three stores whose zone / host values are drawn from letter-case
+// variants and prefixes of the same words, one rule with location labels; complete grid.
+func caseVariantGrid(fn func(idx int, c *Case)) {
+	zv := []string{"z1", "Z1", "z2", "z10"}
+	hv := []string{"h1", "H1"}
+	locs := [][]string{{"zone"}, {"zone", "host"}, {"ZONE", "host"}}
+	cons := [][]ConsSpec{nil, {{Key: "zone", Op: "in", Values: []string{"z1", "z2"}}}, {{Key: "Zone", Op: "notIn", Values: []string{"Z1"}}}}
+	idx := 0
+	for z := 0; z < 64; z++ {
+		for h := 0; h < 8; h++ {
+			for kc := 0; kc < 2; kc++ {
+				var stores []StoreSpec
+				for i := 0; i < 3; i++ {
+					zk := "zone"
+					if kc == 1 && i == 0 {
+						zk = "Zone"
+					}
+					stores = append(stores, StoreSpec{ID: uint64(i + 1), Labels: []Label{{zk, zv[(z>>uint(2*i))&3]}, {"host", hv[(h>>uint(i))&1]}}})
+				}
+				peers := []PeerSpec{{ID: 1, Store: 1}, {ID: 2, Store: 2}, {ID: 3, Store: 3}}
+				for _, cnt := range []int{2, 3} {
+					for _, loc := range locs {
+						for _, cs := range cons {
+							fn(idx, &Case{Origin: "directed/case-variants", Stores: stores, Peers: peers, Leader: 1,
+								Rules: []RuleSpec{{ID: "r0", Role: "voter", Count: cnt, Cons: cs, Loc: loc}}})
+							idx++
+						}
+					}
+				}
+			}
+		}
+	}
+}
+
 // injectHazard puts the case into one of the zones where the property statement is silent and the
 // implementation has its own conventions (letter case of keys / values, empty label values, stores
 // without a location label). The oracle decides whether the hazard matters for the case.
@@ -367,6 +463,11 @@ func genCase(rng *rand.Rand) *Case {
 			c = nc
 		}
 	}
+	if rng.Intn(4) == 0 {
+		variantizeStores(rng, c.Stores)
+		variantizeRules(rng, c.Rules)
+		c.Origin += "+variants"
+	}
 	if rng.Intn(10) == 0 {
 		injectHazard(rng, c)
 		c.Origin += "+hazard"
@@ -389,7 +490,7 @@ func genNearSatisfied(rng *rand.Rand) *Case {
 		}
 		c.Rules = append(c.Rules, r)
 	}
-	def := reading{kfLookup: true, kfExclName: true, kfExclSpec: true, eaLookup: true, eaExcl: true, vfCons: true, vfLoc: true, missSame: true}
+	def := docReading
 	used := map[uint64]bool{}
 	ids := rng.Perm(40)
 	haveLeader := false
